@@ -593,3 +593,236 @@ Definition p_settled (s : pst) : bool :=
   match pf s with PDropped | PTaken => true | _ => false end
   && match pk s with KNone | KReaped => true | _ => false end
   && match pd s with PCaller => false | _ => true end.
+
+(* ---------------------------------------------------------------------- *)
+(* Part 1b: WHICH waker is woken.  The waiting future may be polled under   *)
+(* different wakers (moved into another task, polled by hand and then       *)
+(* awaited).  WakerSlot::register stores the waker of the CURRENT poll on   *)
+(* every poll that returns Pending (fd.rs: `this.waker.register(cx.waker())`*)
+(* ; a Submit future does the same through Key::set_waker), wake() takes    *)
+(* the stored one.  Wakers are named (closer, generation).  The wrapper     *)
+(* follows the unsync macro steps of Part 1 and reads register / wake off   *)
+(* the base state before and after the step.                                *)
+
+Record wst := mk_wst {
+  base : st;
+  gen : nat -> nat;        (* generation of the waker closer c is polled with next *)
+  lgen : nat -> nat;       (* generation its latest poll used *)
+  slot : nat * nat;        (* the waker stored in the slot (meaningful while [waker base]) *)
+  wok : nat * nat          (* the waker that holds the pending notification (while [wwoken base]) *)
+}.
+
+Definition winit : wst := mk_wst init (fun _ => 0) (fun _ => 0) (0, 0) (0, 0).
+
+Inductive wulabel :=
+| WU (l : ulabel)
+| WSwitch (c : nat).      (* closer c's future gets a fresh waker (moved to another task) *)
+
+Definition fset (f : nat -> nat) (k v : nat) : nat -> nat := fun i => if Nat.eqb i k then v else f i.
+
+Definition pc_at (s : st) (c : nat) : option cpc := option_map pc (nth_error (closers s) c).
+
+Definition wustep (g : cfg) (ws : wst) (l : wulabel) : option wst :=
+  match l with
+  | WSwitch c =>
+    match pc_at (base ws) c with
+    | Some (CUnpolled | CCreated | CPending | CClosing | CClosed) =>
+      Some (mk_wst (base ws) (fset (gen ws) c (S (gen ws c))) (lgen ws) (slot ws) (wok ws))
+    | _ => None
+    end
+  | WU ul =>
+    match ustep g (base ws) ul with
+    | None => None
+    | Some b' =>
+      let lg := match ul with UPoll c => fset (lgen ws) c (gen ws c) | _ => lgen ws end in
+      let slot' := match ul with
+                   | UPoll c => match pc_at b' c with Some CPending => (c, lg c) | _ => slot ws end
+                   | _ => slot ws
+                   end in
+      let wok' :=
+        if waker (base ws) && negb (waker b') then slot ws    (* wake(): the stored waker *)
+        else match ul with
+             | UKClose c => match pc_at (base ws) c with
+                            | Some CClosing => (c, lgen ws c)   (* completion wakes the future's latest waker *)
+                            | _ => wok ws
+                            end
+             | _ => wok ws
+             end in
+      Some (mk_wst b' (gen ws) lg slot' wok')
+    end
+  end.
+
+Fixpoint wusteps (g : cfg) (ws : wst) (ls : list wulabel) : option wst :=
+  match ls with
+  | [] => Some ws
+  | l :: r => match wustep g ws l with Some ws' => wusteps g ws' r | None => None end
+  end.
+
+(* ---------------------------------------------------------------------- *)
+(* Part 3: multishot accept (compio-net/src/incoming/unix.rs Incoming,     *)
+(* compio-runtime/src/future/stream.rs SubmitMulti,                         *)
+(* compio-driver/src/sys/op/multishot/{iour,poll}.rs AcceptMulti).          *)
+(* io_uring: one request accepts every connection; each completion (MORE)   *)
+(* is adopted by push_multishot into the operation's queue of sockets and   *)
+(* handed out by pop_multishot.  Polling driver: AcceptMulti is one accept  *)
+(* per submission; Incoming submits again after each connection.            *)
+
+Inductive mstream := MIdle | MPolled | MDropped.
+Inductive mkern :=
+| MKNone        (* no request in the kernel / poller *)
+| MKQueued      (* io_uring: SQE queued, not submitted *)
+| MKArmed       (* the request is live *)
+| MKFinal.      (* io_uring: terminated, final completion not yet reaped *)
+
+Record mst := mk_mst {
+  m_uring : bool;
+  ms : mstream;
+  mk : mkern;
+  backlog : nat;     (* connections the kernel has not accepted yet (no descriptor) *)
+  cq : nat;          (* accepted; descriptor named only by an unreaped completion *)
+  queue : nat;       (* adopted into the operation (multishots queue / accepted_fd), not yet pulled *)
+  held : nat;        (* delivered to the user and still held *)
+  mclosed : nat;
+  mlost : nat;       (* open with no owner *)
+  accepted : nat;    (* ghost: descriptors the kernel created *)
+  m_cancel : bool;
+  m_user : bool;     (* the stream's Key *)
+  m_drv : bool;      (* the driver's reference *)
+  m_alive : bool
+}.
+
+Definition minit (ur : bool) : mst :=
+  mk_mst ur MIdle MKNone 0 0 0 0 0 0 0 false false false true.
+
+Inductive mlabel :=
+| MPoll          (* poll_next once *)
+| MDrop          (* the stream is dropped *)
+| MConnect       (* a peer connects *)
+| MDrive         (* driver turn *)
+| MUserDrop      (* the user drops a delivered connection *)
+| MDriverDrop.   (* the runtime is dropped *)
+
+(* storage released: the queued sockets are dropped = closed *)
+Definition msettle (s : mst) : mst :=
+  if negb (m_user s) && negb (m_drv s) then
+    mk_mst (m_uring s) (ms s) (mk s) (backlog s) (cq s) 0 (held s) (mclosed s + queue s) (mlost s)
+           (accepted s) (m_cancel s) false false (m_alive s)
+  else s.
+
+(* a live io_uring request accepts everything that is pending *)
+Definition kaccept (s : mst) : mst :=
+  match mk s with
+  | MKArmed =>
+    if m_uring s then
+      mk_mst true (ms s) MKArmed 0 (cq s + backlog s) (queue s) (held s) (mclosed s) (mlost s)
+             (accepted s + backlog s) (m_cancel s) (m_user s) (m_drv s) (m_alive s)
+    else s
+  | _ => s
+  end.
+
+Definition mstep (s : mst) (l : mlabel) : option mst :=
+  match l with
+  | MPoll =>
+    if negb (m_alive s) then None else
+    match ms s with
+    | MDropped => None
+    | _ =>
+      if m_user s then
+        (* an operation exists: pull a queued connection *)
+        match queue s with
+        | S q =>
+          if m_uring s then
+            Some (mk_mst true MPolled (mk s) (backlog s) (cq s) q (S (held s)) (mclosed s) (mlost s)
+                         (accepted s) (m_cancel s) true (m_drv s) true)
+          else
+            (* polling: the finished operation is consumed (try_take + into_inner) *)
+            Some (mk_mst false MPolled MKNone (backlog s) (cq s) q (S (held s)) (mclosed s) (mlost s)
+                         (accepted s) false false false true)
+        | O => Some (mk_mst (m_uring s) MPolled (mk s) (backlog s) (cq s) 0 (held s) (mclosed s) (mlost s)
+                            (accepted s) (m_cancel s) true (m_drv s) true)
+        end
+      else if m_uring s then
+        (* submit_multi: SQE queued *)
+        Some (mk_mst true MPolled MKQueued (backlog s) (cq s) (queue s) (held s) (mclosed s) (mlost s)
+                     (accepted s) false true true true)
+      else
+        match backlog s with
+        | S b =>
+          (* polling: pre_submit accepts at once; delivered *)
+          Some (mk_mst false MPolled MKNone b (cq s) (queue s) (S (held s)) (mclosed s) (mlost s)
+                       (S (accepted s)) false false false true)
+        | O =>
+          Some (mk_mst false MPolled MKArmed 0 (cq s) (queue s) (held s) (mclosed s) (mlost s)
+                       (accepted s) false true true true)
+        end
+    end
+  | MDrop =>
+    match ms s with
+    | MDropped => None
+    | _ =>
+      let live := match mk s with MKQueued | MKArmed => true | _ => false end in
+      if m_uring s then
+        Some (msettle (mk_mst true MDropped (mk s) (backlog s) (cq s) (queue s) (held s) (mclosed s) (mlost s)
+                              (accepted s) (m_user s && live && m_alive s) false (m_drv s) (m_alive s)))
+      else
+        (* polling: cancel removes the operation from the fd queue *)
+        Some (msettle (mk_mst false MDropped MKNone (backlog s) (cq s) (queue s) (held s) (mclosed s) (mlost s)
+                              (accepted s) false false false (m_alive s)))
+    end
+  | MConnect =>
+    Some (kaccept (mk_mst (m_uring s) (ms s) (mk s) (S (backlog s)) (cq s) (queue s) (held s) (mclosed s) (mlost s)
+                          (accepted s) (m_cancel s) (m_user s) (m_drv s) (m_alive s)))
+  | MDrive =>
+    if negb (m_alive s) then None else
+    if m_uring s then
+      (* submit (request first, then the cancel), then reap *)
+      let s1 := match mk s with
+                | MKQueued => kaccept (mk_mst true (ms s) MKArmed (backlog s) (cq s) (queue s) (held s) (mclosed s)
+                                              (mlost s) (accepted s) (m_cancel s) (m_user s) (m_drv s) true)
+                | _ => s
+                end in
+      let s2 := if m_cancel s1 && match mk s1 with MKArmed => true | _ => false end
+                then mk_mst true (ms s1) MKFinal (backlog s1) (cq s1) (queue s1) (held s1) (mclosed s1) (mlost s1)
+                            (accepted s1) false (m_user s1) (m_drv s1) true
+                else s1 in
+      let fin := match mk s2 with MKFinal => true | _ => false end in
+      Some (msettle (mk_mst true (ms s2) (if fin then MKNone else mk s2) (backlog s2) 0 (queue s2 + cq s2) (held s2)
+                            (mclosed s2) (mlost s2) (accepted s2) false (m_user s2)
+                            (if fin then false else m_drv s2) true))
+    else
+      match mk s, backlog s with
+      | MKArmed, S b =>
+        (* operate(): one accept, adopted by the operation, which completes *)
+        Some (msettle (mk_mst false (ms s) MKNone b (cq s) (S (queue s)) (held s) (mclosed s) (mlost s)
+                              (S (accepted s)) false (m_user s) false true))
+      | _, _ => Some s
+      end
+  | MUserDrop =>
+    match held s with
+    | S h => Some (mk_mst (m_uring s) (ms s) (mk s) (backlog s) (cq s) (queue s) h (S (mclosed s)) (mlost s)
+                          (accepted s) (m_cancel s) (m_user s) (m_drv s) (m_alive s))
+    | O => None
+    end
+  | MDriverDrop =>
+    if negb (m_alive s) then None else
+    (* a polled, live stream keeps the proactor alive *)
+    if match ms s with MPolled => true | _ => false end then None else
+    (* io_uring Driver::drop: unreaped completions are discarded, remaining keys released *)
+    Some (msettle (mk_mst (m_uring s) (ms s) MKNone (backlog s) 0 (queue s) (held s) (mclosed s) (mlost s + cq s)
+                          (accepted s) false (m_user s) false false))
+  end.
+
+Fixpoint msteps (s : mst) (ls : list mlabel) : option mst :=
+  match ls with
+  | [] => Some s
+  | l :: r => match mstep s l with Some s' => msteps s' r | None => None end
+  end.
+
+Definition m_unheld (s : mst) : nat := cq s + queue s + mlost s.
+
+(* nothing is left to run: stream dropped, user holds nothing, and the driver
+   has either gone or has no request and no unreaped completion *)
+Definition m_settled (s : mst) : bool :=
+  match ms s with MDropped => true | _ => false end
+  && Nat.eqb (held s) 0
+  && (negb (m_alive s) || (match mk s with MKNone => true | _ => false end && Nat.eqb (cq s) 0)).
